@@ -8,11 +8,23 @@ Require Import PV.Proofs.DStream PV.Proofs.DStreamHist PV.Proofs.DStreamApi.
 Import ListNotations.
 Open Scope Z_scope.
 
+(* [live g t srcv]: in this interval every parent of a TransformedDStream holds an RDD, i.e. the early
+   return `if self._prev._current_rdd is None: return` of TransformedDStream._step (a windowed parent
+   before its first emission, C11) is not taken.  It holds in EVERY interval for every graph whose
+   nodes used as parents are total, in particular for the graph of every program whose user-supplied
+   transform functions return RDDs and which derives no stream from a foreachRDD action: *)
+Theorem C10_total_graph_always_live : forall g, wf g -> graph_total g -> always_live g.
+Proof. exact graph_total_live. Qed.
+Theorem C10_total_program_always_live : forall p,
+  prog_ok p -> prog_total p -> always_live (fst (expand p)).
+Proof. exact prog_total_live. Qed.
+
 (* The stepping machine (guards + recursion into parents + one callback over all registered
    nodes) computes exactly the one-pass specification, for EVERY well-formed graph, every state whose
    nodes are all older than t, every directory content. *)
 Theorem C10_tick_refines : forall g env t st,
   wf g -> length (ns st) = length g -> (forall i s, nth_error (ns st) i = Some s -> ctime s < t) ->
+  live g t (delivered g env st) ->
   tick g env t st = Some (tick_spec g env t st).
 Proof. exact tick_refines. Qed.
 
@@ -20,6 +32,7 @@ Proof. exact tick_refines. Qed.
    to what its parents hold in the SAME interval; a source holds the batch its stream delivered *)
 Theorem C10_tick_inv : forall g env t st,
   wf g -> length (ns st) = length g -> (forall i s, nth_error (ns st) i = Some s -> ctime s < t) ->
+  live g t (delivered g env st) ->
   exists st', tick g env t st = Some st' /\
     length (ns st') = length g /\
     (forall i s, nth_error (ns st') i = Some s -> ctime s = t) /\
@@ -31,6 +44,7 @@ Proof. exact tick_inv. Qed.
    delivered in THIS interval only -- nothing leaks from earlier intervals, nothing is skipped *)
 Theorem C10_tick_denot : forall g env t st,
   wf g -> length (ns st) = length g -> (forall i s, nth_error (ns st) i = Some s -> ctime s < t) ->
+  live g t (delivered g env st) ->
   exists st', tick g env t st = Some st' /\
     forall i, (i < length g)%nat -> crdd_at st' i = nth i (denot g t (delivered g env st)) RNone.
 Proof. exact tick_denot. Qed.
@@ -47,6 +61,7 @@ Proof. exact tick_stutter. Qed.
    the RDDs its parents hold in this interval -- however many derived nodes reach a node *)
 Theorem C10_pop_once_fire_once : forall g env t st,
   wf g -> length (ns st) = length g -> (forall i s, nth_error (ns st) i = Some s -> ctime s < t) ->
+  live g t (delivered g env st) ->
   exists st' evs, tick g env t st = Some st' /\ log st' = log st ++ evs /\
     (forall i, pops i evs = (if is_src g i then 1 else 0)%nat) /\
     (forall i, fires i evs = (if is_fn g i then 1 else 0)%nat) /\
@@ -58,6 +73,7 @@ Proof. exact tick_events. Qed.
    walk the registered nodes (with repetitions): the guards make the order irrelevant *)
 Theorem C10_any_order : forall g env t st order,
   wf g -> length (ns st) = length g -> (forall i s, nth_error (ns st) i = Some s -> ctime s < t) ->
+  live g t (delivered g env st) ->
   (forall i, In i order -> (i < length g)%nat) -> (forall i, (i < length g)%nat -> In i order) ->
   exists st' evs, step_all g env t order st = Some st' /\
     ns st' = ns (tick_spec g env t st) /\ log st' = log st ++ evs /\
@@ -67,7 +83,7 @@ Proof. exact any_order_once. Qed.
 
 (* histories: strictly increasing positive tick times from the initial state *)
 Theorem C10_history_refines : forall g h,
-  wf g -> increasing 0 h -> run_hist g h (init g) = Some (spec_hist g h (init g)).
+  wf g -> always_live g -> increasing 0 h -> run_hist g h (init g) = Some (spec_hist g h (init g)).
 Proof. exact run_hist_init. Qed.
 
 (* every queued batch is delivered in exactly one interval, in arrival order; after exhaustion the
@@ -115,7 +131,7 @@ Proof. exact prog_sem. Qed.
    operation of that call applied to the RDDs its argument streams hold in the same interval; a
    source holds the batch its stream delivered *)
 Theorem C10_per_batch_op : forall p env t st,
-  prog_ok p -> let G := fst (expand p) in let hs := snd (expand p) in
+  prog_ok p -> prog_total p -> let G := fst (expand p) in let hs := snd (expand p) in
   length (ns st) = length G -> (forall i s, nth_error (ns st) i = Some s -> ctime s < t) ->
   exists st', tick G env t st = Some st' /\
     forall k c, nth_error p k = Some c ->
@@ -125,7 +141,7 @@ Proof. exact prog_tick. Qed.
 
 (* the same along any history of strictly increasing tick times, from the initial state *)
 Theorem C10_per_batch_op_history : forall p h t env,
-  prog_ok p -> let G := fst (expand p) in let hs := snd (expand p) in
+  prog_ok p -> prog_total p -> let G := fst (expand p) in let hs := snd (expand p) in
   increasing 0 (h ++ [(t, env)]) ->
   exists st st', run_hist G h (init G) = Some st /\ run_hist G (h ++ [(t, env)]) (init G) = Some st' /\
     forall k c, nth_error p k = Some c ->
@@ -136,7 +152,7 @@ Proof. exact prog_hist. Qed.
 (* every registered output action (foreachRDD) of ANY program fires exactly once per interval, with
    the tick time and with the RDD its stream holds in this interval *)
 Theorem C10_action_fires_once : forall p env t st k s,
-  prog_ok p -> nth_error p k = Some (CForeachRDD s) ->
+  prog_ok p -> prog_total p -> nth_error p k = Some (CForeachRDD s) ->
   let G := fst (expand p) in let hs := snd (expand p) in
   length (ns st) = length G -> (forall i x, nth_error (ns st) i = Some x -> ctime x < t) ->
   exists st' evs, tick G env t st = Some st' /\ log st' = log st ++ evs /\
@@ -203,6 +219,12 @@ Definition ex_flat (a : rv) : list val := match a with RRdd r => flat r | RNone 
 
 Example ex_prog_ok : prog_ok ex_prog.
 Proof. unfold prog_ok, ex_prog; simpl. repeat split; intros s H; simpl in H; intuition (subst; auto with arith). Qed.
+Example ex_prog_total : prog_total ex_prog.
+Proof.
+  intros k c Hk. do 7 (destruct k as [|k]; [inversion Hk; subst c; split; [exact I|];
+    simpl; intros s Hs c' Hc'; repeat (destruct Hs as [<-|Hs]; [inversion Hc'; reflexivity|]); destruct Hs|]).
+  destruct k; discriminate.
+Qed.
 Example ex_hist_increasing : increasing 0 ex_hist.
 Proof. simpl. repeat split; reflexivity. Qed.
 (* 11 registered nodes: the source, 3 for map, 1 filter, 1 union, 3 for count, 2 actions *)
